@@ -931,7 +931,10 @@ impl<'a, W: Write + 'a> ser::SerializeSeq for SeqSerializer<'a, W> {
             SeqSerializerState::Buffer(buf) => buf,
         };
 
-        match se.seq_type {
+        // The marker set by the `Array` / `TransparentVec` wrapper applies to this sequence only.
+        // It is taken so that it cannot reach the next value written with the same serializer
+        // (eg. the value of a map entry whose key is an array)
+        match se.seq_type.take() {
             None | Some(SequenceType::List) => {
                 write_list(&mut se.writer, num, &buf, &se.is_array_elem)
             }
